@@ -93,11 +93,17 @@ var (
 	sigSeen = map[string][]int{}
 )
 
-var auxSeen = map[string][]int{}
+var (
+	auxSeen    = map[string][]int{}
+	auxExample = map[string]string{}
+)
 
-func auxNote(sig string, idx int) {
+func auxNote(sig string, idx int, example string) {
 	sigMu.Lock()
 	auxSeen[sig] = append(auxSeen[sig], idx)
+	if _, ok := auxExample[sig]; !ok {
+		auxExample[sig] = fmt.Sprintf("scenario %d: %s", idx, core.Trunc(example, 400))
+	}
 	sigMu.Unlock()
 }
 
@@ -184,8 +190,8 @@ func run(c *core.Ctx) {
 		fmt.Println("auxiliary observations (not verdicts):")
 		ax := map[string]any{}
 		for _, k := range keys {
-			fmt.Printf("  %3d x %s   scenarios %v\n", len(auxSeen[k]), k, head(auxSeen[k], 12))
-			ax[k] = len(auxSeen[k])
+			fmt.Printf("  %3d x %s   scenarios %v   e.g. %s\n", len(auxSeen[k]), k, head(auxSeen[k], 12), auxExample[k])
+			ax[k] = map[string]any{"count": len(auxSeen[k]), "example": auxExample[k]}
 		}
 		c.Extra("auxiliary_observations", ax)
 	}
@@ -294,6 +300,17 @@ func judge(c *core.Ctx, res *result) {
 	}
 
 	c.Count("kill.by."+res.KilledBy, 1)
+	if os.Getenv("C03_DEBUG") != "" && (s.Kind == "stale" || s.Kind == "busy") {
+		fmt.Printf("  debug %s %d: killed_by=%s run1_trunc=%d notes=%v wall=%dms cfg=%+v\n", s.Kind, s.Idx, res.KilledBy, res.Run1Trunc, res.Notes, res.WallMs, s.Cfg)
+		if s.Kind == "stale" && s.Idx == 154 {
+			for _, l := range strings.Split(res.Run1LogTail, "\n") {
+				if strings.Contains(l, "maintenance stats") || strings.Contains(l, "matched by pattern") {
+					continue
+				}
+				fmt.Println("    LOG", core.Trunc(l, 260))
+			}
+		}
+	}
 	if strings.HasPrefix(res.KilledBy, "hook:") {
 		c.Count("kill.hook_reached", 1)
 		c.Count("kill.hook_reached."+s.Kill.Point+"."+s.Cfg.Persistence, 1)
@@ -357,7 +374,11 @@ func judge(c *core.Ctx, res *result) {
 		aux := fmt.Sprintf("run1-died-by-itself:%s:truncation-reported-though-none-happened=%t:job-readded-after-deletion=%t:watch-file-changes=%t",
 			cls, res.Run1Trunc > 0, res.Run1Readded > 0, s.Cfg.WatchChanges)
 		c.Count("aux.run1_died_by_itself", 1)
-		auxNote(aux, s.Idx)
+		ex := ""
+		if len(res.Run1Fatals) > 0 {
+			ex = sanitize(res.Run1Fatals[0], res.Dir)
+		}
+		auxNote(aux, s.Idx, ex)
 	}
 	if res.Run2Died != "" {
 		cls := fatalClass(res.Run2Fatals, res.Run2LogTail)
